@@ -34,6 +34,8 @@ pub struct C18World {
     /// first operation on the freshly built shape, before anything else can restructure it:
     /// none | remove_min | remove_max | next_min | prev_max | contains_min | contains_max | min | max
     pub first: String,
+    /// build profile of the child that runs the scenario: "release" | "debug" (opt-level 0: larger frames)
+    pub profile: String,
 }
 
 const GUARD: usize = 64 << 10;
@@ -47,7 +49,7 @@ fn grid(tier: Tier) -> Vec<C18World> {
     let mut g = Vec::new();
     let base = |kind: &str, stack: u64, n: u64, shape: &str, teardown: &str| C18World {
         kind: kind.into(), stack_bytes: stack, n, shape: shape.into(), shape_seed: 1, post: "none".into(), post_count: 0,
-        teardown: teardown.into(), partial: n / 3, op: "intersection".into(), first: "none".into(),
+        teardown: teardown.into(), partial: n / 3, op: "intersection".into(), first: "none".into(), profile: "release".into(),
     };
     // every teardown mode on both chain directions at 3e6 keys, both budgets
     for (i, td) in TEARDOWNS.iter().enumerate() {
@@ -84,6 +86,28 @@ fn grid(tier: Tier) -> Vec<C18World> {
     for (n, op, stack) in [(100_000u64, "union", 2u64 << 20), (240_000, "xor", 8 << 20)] {
         let mut w = base("boolean_stairs", stack, n, "asc", "drop");
         w.op = op.into();
+        g.push(w);
+    }
+    // size ladder with unoptimised frames: thresholds below which a recursive path might be kept "because it is small"
+    for (i, n) in [3_000u64, 10_000, 20_000, 40_000, 60_000, 65_000, 100_000, 130_000, 300_000].iter().enumerate() {
+        for (j, td) in ["drop", "clear", "partial_fwd", "partial_back"].iter().enumerate() {
+            let mut w = base(if (i + j) % 2 == 0 { "tree" } else { "set" }, 2 << 20, *n, if (i + j) % 3 == 0 { "desc" } else { "asc" }, td);
+            w.profile = "debug".into();
+            w.partial = 7;
+            g.push(w);
+        }
+    }
+    // partial consumption of a large chain that leaves a small tail to be dropped
+    for (i, tail) in [1_000u64, 20_000, 40_000, 65_000, 100_000, 131_000].iter().enumerate() {
+        let mut w = base("tree", 2 << 20, 1_000_000, if i % 2 == 0 { "asc" } else { "desc" }, if i % 2 == 0 { "partial_fwd" } else { "partial_back" });
+        w.partial = 1_000_000 - tail;
+        w.profile = if i % 3 == 0 { "release".into() } else { "debug".into() };
+        g.push(w);
+    }
+    for (kind, n, op, stack, prof) in [("boolean", 20_000u64, "intersection", 2u64 << 20, "debug"), ("boolean", 30_000, "difference", 2 << 20, "debug"), ("boolean_stairs", 30_000, "union", 2 << 20, "debug")] {
+        let mut w = base(kind, stack, n, "asc", "drop");
+        w.op = op.into();
+        w.profile = prof.into();
         g.push(w);
     }
     for (kind, n, op, stack) in [("boolean_nested", 100_000u64, "union", 8u64 << 20), ("boolean_nested", 60_000, "intersection", 2 << 20),
@@ -520,7 +544,11 @@ impl World for C18World {
         let mut r = Rng::stream(seed, "workload");
         let big = if tier == Tier::Thorough { 3_000_000 } else { 1_500_000 };
         let kind = *r.pick(&["tree", "set", "tree", "set", "tree", "set", "tree", "set", "boolean", "boolean_stairs", "boolean_nested", "boolean_grid"]);
-        let n = if kind.starts_with("boolean") { 20_000 + r.below(130_000) } else { 100_000 + r.below(big) };
+        let profile = if r.chance(1, 3) { "debug" } else { "release" };
+        // sizes log-uniform over 10^3 .. big (thresholds can sit anywhere), smaller caps for unoptimised children
+        let logu = |r: &mut Rng, lo: f64, hi: f64| (10f64).powf(lo + (hi - lo) * (r.below(1 << 20) as f64 / (1u64 << 20) as f64)) as u64;
+        let cap = if profile == "debug" { 1_000_000f64 } else { big as f64 + 100_000.0 };
+        let n = if kind.starts_with("boolean") { logu(&mut r, 3.0, if profile == "debug" { 4.7 } else { 5.2 }) } else { logu(&mut r, 3.0, cap.log10()) };
         let mut fr = Rng::stream(seed, "faults");
         C18World {
             kind: kind.into(),
@@ -531,19 +559,20 @@ impl World for C18World {
             post: (*r.pick(&["none", "none", "lookups", "removals"])).into(),
             post_count: 1 + r.below(2000),
             teardown: (*r.pick(&TEARDOWNS)).into(),
-            partial: r.below(n + 1),
+            partial: if r.chance(1, 2) { r.below(n + 1) } else { n - logu(&mut r, 0.0, (n.max(2) as f64).log10()).min(n) },
             op: match kind {
                 "boolean_stairs" => (*r.pick(&["union", "xor"])).into(),
                 "boolean_nested" | "boolean_grid" => (*r.pick(&["union", "xor", "intersection", "difference"])).into(),
                 _ => (*r.pick(&["intersection", "difference"])).into(),
             },
             first: (*r.pick(&FIRSTS)).into(),
+            profile: profile.into(),
         }
     }
 
     fn to_json(&self) -> Value {
         json!({"kind": self.kind, "stack_bytes": self.stack_bytes, "n": self.n, "shape": self.shape, "shape_seed": self.shape_seed,
-            "post": self.post, "post_count": self.post_count, "teardown": self.teardown, "partial": self.partial, "op": self.op, "first": self.first})
+            "post": self.post, "post_count": self.post_count, "teardown": self.teardown, "partial": self.partial, "op": self.op, "first": self.first, "profile": self.profile})
     }
 
     fn from_json(v: &Value) -> Result<Self, String> {
@@ -553,11 +582,23 @@ impl World for C18World {
             kind: s("kind")?, stack_bytes: u("stack_bytes")?, n: u("n")?, shape: s("shape")?, shape_seed: u("shape_seed")?,
             post: s("post")?, post_count: u("post_count")?, teardown: s("teardown")?, partial: u("partial")?, op: s("op")?,
             first: v["first"].as_str().unwrap_or("none").to_string(),
+            profile: v["profile"].as_str().unwrap_or("release").to_string(),
         })
     }
 
     fn run(&self, st: &mut Stats) -> Verdict {
-        let exe = std::env::current_exe().expect("current_exe");
+        let mut exe = std::env::current_exe().expect("current_exe");
+        if self.profile == "debug" {
+            // sibling build of the same sources with opt-level 0 (target/stackdbg/sim)
+            let dbg = exe.parent().and_then(|p| p.parent()).map(|p| p.join("stackdbg").join("sim"));
+            match dbg {
+                Some(d) if d.exists() => exe = d,
+                _ => {
+                    st.inc("harness_debug_profile_child_missing");
+                }
+            }
+        }
+        st.inc(&format!("profile_{}", self.profile));
         let out = Command::new(exe)
             .arg("stack-child")
             .arg(self.to_json().to_string())
@@ -589,7 +630,7 @@ impl World for C18World {
             st.add("boolean_input_edges", if self.kind == "boolean_grid" { 8 * self.n } else { 4 * self.n + 2 });
         }
         let mut dh = LogHash::new();
-        dh.add_bytes(format!("{}/{}/{}/{}/{}/{}/{}", self.kind, self.shape, self.teardown, self.stack_bytes, self.post, self.first, (self.n as f64).log10().floor()).as_bytes());
+        dh.add_bytes(format!("{}/{}/{}/{}/{}/{}/{}/{}", self.kind, self.shape, self.teardown, self.stack_bytes, self.post, self.first, self.profile, (self.n as f64).log10().floor()).as_bytes());
         st.distinct.insert(dh.0);
         let violation = if let Some(sig) = out.status.signal() {
             st.inc("children_killed_by_signal");
@@ -634,6 +675,7 @@ impl World for C18World {
         push(&|w| { w.post = "none".into(); w.post_count = 0 });
         push(&|w| w.shape = "asc".into());
         push(&|w| w.first = "none".into());
+        push(&|w| w.profile = "release".into());
         push(&|w| if !w.kind.starts_with("boolean") { w.teardown = "drop".into() });
         push(&|w| if w.kind == "set" { w.kind = "tree".into() });
         push(&|w| { w.n = (w.n / 2).max(1); w.partial = w.partial.min(w.n) });
@@ -644,7 +686,7 @@ impl World for C18World {
     }
 
     fn signature(&self) -> String {
-        format!("c18:{}:{}:{}:{}:{}", self.kind, self.shape, if self.kind.starts_with("boolean") { &self.op } else { &self.teardown }, self.first, self.stack_bytes >> 20)
+        format!("c18:{}:{}:{}:{}:{}:{}", self.kind, self.shape, if self.kind.starts_with("boolean") { &self.op } else { &self.teardown }, self.first, self.profile, self.stack_bytes >> 20)
     }
 }
 
